@@ -467,7 +467,8 @@ class Interp:
                     else:
                         x = a // b if op == '/' else a % b
                 r = x & _mask(W)
-                if self.track and (x < 0 or x != r):
+                if self.track and (x < 0 or x != r or (S and (r >> (W - 1)) & 1)):
+                    # negative, truncated, or (in a signed context) a value Verilog reads as negative
                     self.domain_exits += 1
                 return r
             if op in ('<<', '>>', '<<<', '>>>'):
@@ -476,7 +477,7 @@ class Interp:
                 if op in ('<<', '<<<'):
                     x = a << n if n < 4096 else 0
                     r = x & _mask(W)
-                    if self.track and x != r:
+                    if self.track and (x != r or (S and (r >> (W - 1)) & 1)):
                         self.domain_exits += 1
                     return r
                 if op == '>>>' and S and W > 0 and (a >> (W - 1)) & 1:
